@@ -287,3 +287,135 @@ pub fn selftest_mode(args: &vcommon::Args) -> u32 {
         .and_then(|s| s.parse().ok())
         .unwrap_or(0)
 }
+
+// ---------------------------------------------------------------------------
+// Every read method of `KeyValueInspect`, judged against the documented meaning.
+
+use fuel_core_storage::kv_store::KeyValueInspect;
+
+/// outcome of `read_exact` / `read_zerofill`: `Ok((returned count, buffer))` or
+/// the name of the `StorageReadError`
+pub type ReadOutcome = Result<(usize, Bytes), String>;
+
+#[derive(Clone, Debug, PartialEq, Eq)]
+pub struct Reads {
+    pub get: Option<Bytes>,
+    pub exists: bool,
+    pub size: Option<usize>,
+    pub exact: ReadOutcome,
+    pub zerofill: ReadOutcome,
+}
+
+/// (offset, buffer length) cases around the value length
+pub fn read_case(selector: u64, len: usize) -> (usize, usize) {
+    match selector % 6 {
+        0 => (0, len),
+        1 => (0, len + 1),
+        2 => (len.min(1), len.saturating_sub(1)),
+        3 => (len, 1),
+        4 => (len + 1, 1),
+        _ => (0, 0),
+    }
+}
+
+/// calls get / exists / size_of_value / read_exact / read_zerofill; `Err` is a
+/// storage error of any of them
+pub fn do_reads<S>(s: &S, key: &[u8], col: S::Column, offset: usize, buf_len: usize) -> Result<Reads, String>
+where
+    S: KeyValueInspect + ?Sized,
+{
+    let get = s.get(key, col).map_err(|e| format!("get: {e}"))?.map(|v| v.to_vec());
+    let exists = s.exists(key, col).map_err(|e| format!("exists: {e}"))?;
+    let size = s.size_of_value(key, col).map_err(|e| format!("size_of_value: {e}"))?;
+    let mut buf = vec![0xAAu8; buf_len];
+    let exact = match s
+        .read_exact(key, col, offset, &mut buf)
+        .map_err(|e| format!("read_exact: {e}"))?
+    {
+        Ok(n) => Ok((n, buf.clone())),
+        Err(e) => Err(format!("{e:?}")),
+    };
+    let mut buf = vec![0xAAu8; buf_len];
+    let zerofill = match s
+        .read_zerofill(key, col, offset, &mut buf)
+        .map_err(|e| format!("read_zerofill: {e}"))?
+    {
+        Ok(n) => Ok((n, buf.clone())),
+        Err(e) => Err(format!("{e:?}")),
+    };
+    Ok(Reads {
+        get,
+        exists,
+        size,
+        exact,
+        zerofill,
+    })
+}
+
+/// What the read methods must return for a stored value (`None` = no entry):
+/// `read_exact` fills the whole buffer from `offset` or fails with OutOfBounds;
+/// `read_zerofill` copies what is there from `offset` (OutOfBounds only if the
+/// offset is past the end), zero-fills the rest and reports the value length.
+pub fn expected_reads(value: Option<&Bytes>, offset: usize, buf_len: usize) -> Reads {
+    let exact = match value {
+        None => Err("KeyNotFound".to_string()),
+        Some(v) => match offset.checked_add(buf_len) {
+            Some(end) if end <= v.len() => Ok((buf_len, v[offset..end].to_vec())),
+            _ => Err("OutOfBounds".to_string()),
+        },
+    };
+    let zerofill = match value {
+        None => Err("KeyNotFound".to_string()),
+        Some(v) if offset > v.len() => Err("OutOfBounds".to_string()),
+        Some(v) => {
+            let mut buf = vec![0u8; buf_len];
+            let n = buf_len.min(v.len() - offset);
+            buf[..n].copy_from_slice(&v[offset..offset + n]);
+            Ok((v.len(), buf))
+        }
+    };
+    Reads {
+        get: value.cloned(),
+        exists: value.is_some(),
+        size: value.map(|v| v.len()),
+        exact,
+        zerofill,
+    }
+}
+
+/// names of the read methods whose answer differs, with expected/observed
+pub fn diff_reads(expected: &Reads, observed: &Reads) -> Vec<(&'static str, String)> {
+    let mut d = Vec::new();
+    if expected.get != observed.get {
+        d.push((
+            "get",
+            format!(
+                "get: expected {} observed {}",
+                hex_opt(expected.get.as_deref()),
+                hex_opt(observed.get.as_deref())
+            ),
+        ));
+    }
+    if expected.exists != observed.exists {
+        d.push(("exists", format!("exists: expected {} observed {}", expected.exists, observed.exists)));
+    }
+    if expected.size != observed.size {
+        d.push((
+            "size_of_value",
+            format!("size_of_value: expected {:?} observed {:?}", expected.size, observed.size),
+        ));
+    }
+    if expected.exact != observed.exact {
+        d.push((
+            "read_exact",
+            format!("read_exact: expected {:?} observed {:?}", expected.exact, observed.exact),
+        ));
+    }
+    if expected.zerofill != observed.zerofill {
+        d.push((
+            "read_zerofill",
+            format!("read_zerofill: expected {:?} observed {:?}", expected.zerofill, observed.zerofill),
+        ));
+    }
+    d
+}
